@@ -59,8 +59,9 @@ SPEC = {
         "domain records are not",
         "quota branches (10 active codes, 50 active mappings per client) and expiry of codes/mappings are not modelled; generated worlds stay below them",
         "cross-node: the SOCKS5 tunnel-open broadcast (BroadcastTunnelOpen -> every node's handleTunnelOpenBroadcast) is driven through a "
-        "BridgeManager double over an in-memory hub (the broker itself is not the repo's); handleDNSQueryCrossNode (connection-state "
-        "store + TCP cross-node pool) is still nil in the harness: DNS target on another node = refused",
+        "BridgeManager double over an in-memory hub (the broker itself is not the repo's); the cross-node DNS query runs over the REAL "
+        "ConnectionStateStore, CrossNodePool and CrossNodeListener (loopback TCP) in `xn 1` worlds; model comparison there only for "
+        "worlds with one single-step connection per client",
         "entry point ProcessCommand and read faults on commands other than MappingGet/Delete/TrafficReport/SOCKS5 are judged by the "
         "predicate only (x-cases), not compared with the model; see checks/c11_coverage.md for the clause/dimension/mechanism map",
         "SendNotifyToClient / NotifyClientAck handlers are registered by the harness although no production code registers them yet",
